@@ -147,7 +147,7 @@ def run(ctx):
         if rng.random() < 0.4:
             opts['check_num_steps'] = rng.random() < 0.5
         if rng.random() < 0.3:
-            opts['scale'] = rng.choice([1.5, 2.5, 10.0, 500])
+            opts['scale'] = rng.choice([1.5, 2.5, 10.0, 500, 1.0, 0.97, 0.8, 0.5, 1.06])       # below 1 too: base step EPS**(1/scale) < EPS
         m = rng.choice(METHODS)
         n = rng.randint(1, 10)
         o = rng.randint(1, 10)
@@ -257,6 +257,9 @@ def run(ctx):
             opts['step_nom'] = rng.choice([1.0, 2.5, 0.5, 1.75])
         if rng.random() < 0.3:
             opts['use_exact_steps'] = rng.random() < 0.5
+        if rng.random() < 0.3 and cls != 'max':
+            # a user-given scale, also below 1 (base step EPS**(1/scale) below EPS: legitimate for complex steps and limits)
+            opts['scale'] = rng.choice([1.5, 2.5, 10.0, 1.0, 0.97, 0.8, 0.5, 1.06])
         if cls == 'c':
             if rng.random() < 0.5:
                 opts['path'] = rng.choice(['radial', 'spiral'])
